@@ -43,32 +43,34 @@ Fixpoint lot_loop (fuel : nat) (n : nat) (l : s_lot) (psp : option rspan) : pars
     | O => PFuel
     | S n' =>
         match i with
-        | 123 :: _ =>
-            match lot_price l with
-            | None =>
-                (pr <- with_span (lot_amount fuel) ;;
-                 space0 ;;;
-                 lot_loop fuel n' {| lot_price := Some (fst pr); lot_date := lot_date l; lot_note := lot_note l |}
-                          (Some (snd pr))) i
-            | Some _ => PErr false L_lot_price_dup i
-            end
-        | 91 :: _ =>
-            match lot_date l with
-            | None =>
-                (d <- delimited (chr 91 ;;; space0) date (space0 ;;; chr 93) ;;
-                 space0 ;;;
-                 lot_loop fuel n' {| lot_price := lot_price l; lot_date := Some d; lot_note := lot_note l |} psp) i
-            | Some _ => PErr false L_lot_date_dup i
-            end
-        | 40 :: _ =>
-            match lot_note l with
-            | None =>
-                (nt <- paren (take_till0 is_note_stop) ;;
-                 space0 ;;;
-                 lot_loop fuel n' {| lot_price := lot_price l; lot_date := lot_date l; lot_note := Some nt |} psp) i
-            | Some _ => PErr false L_lot_note_dup i
-            end
-        | _ => POk (l, psp) i
+        | [] => POk (l, psp) i
+        | c :: _ =>
+            if c =? 123 then
+              match lot_price l with
+              | None =>
+                  (pr <- with_span (lot_amount fuel) ;;
+                   space0 ;;;
+                   lot_loop fuel n' {| lot_price := Some (fst pr); lot_date := lot_date l; lot_note := lot_note l |}
+                            (Some (snd pr))) i
+              | Some _ => PErr false L_lot_price_dup i
+              end
+            else if c =? 91 then
+              match lot_date l with
+              | None =>
+                  (d <- delimited (chr 91 ;;; space0) date (space0 ;;; chr 93) ;;
+                   space0 ;;;
+                   lot_loop fuel n' {| lot_price := lot_price l; lot_date := Some d; lot_note := lot_note l |} psp) i
+              | Some _ => PErr false L_lot_date_dup i
+              end
+            else if c =? 40 then
+              match lot_note l with
+              | None =>
+                  (nt <- paren (take_till0 is_note_stop) ;;
+                   space0 ;;;
+                   lot_loop fuel n' {| lot_price := lot_price l; lot_date := lot_date l; lot_note := Some nt |} psp) i
+              | Some _ => PErr false L_lot_note_dup i
+              end
+            else POk (l, psp) i
         end
     end.
 
